@@ -1,20 +1,23 @@
 """T1 for C15: layouts, version tables and database facts of the debug-authentication code -> coq/Gen/GenDat.v.
 
-Read from vlib.REPO's *current* source on every run:
-  * `ast` over spsdk/dat/debug_credential.py, dar_packet.py, dac_packet.py: the struct format of every
-    export/_get_data_to_sign/parse (normalised to a list of items: u16 / u32 / bytes of a constant or of a named
-    symbolic width), the order of the packed fields, the version tables, the RotMeta constants, the pieces a response
-    is concatenated from;
-  * the device database through the public API (tools/impl/c15_impl.py, mode "extract"): per family and revision
-    SOCC / based_on_ele / ele_cnt_version / ..., per SOCC the family ambassador that DebugCredentialCertificate.parse uses.
-Fail-closed: anything that is not in the expected shape raises Unextractable (reported as a broken `translate:` obligation).
+Everything is read from vlib.REPO's *current* code on every run, through the implementation subprocess
+(tools/impl/c15_impl.py, mode "extract"), i.e. from what the code *computes*, not from how it is spelled:
+  * ProtocolVersion.VERSIONS / from_public_key / is_rsa evaluated on keys of every supported size,
+  * the struct format strings returned by the public get_data_format() of every credential class (RSA: class method per
+    version; ECC / EdgeLock: on credentials created from the test key pool), normalised to item lists,
+  * COORDINATE_SIZE, RotMetaEcc.HASH_SIZES, the response class per protocol version (and whether it adds the uuid),
+  * the device database through its API: per family/revision SOCC / based_on_ele / ele_cnt_version / pss_padding, per SOCC
+    the facts of the family ambassador that DebugCredentialCertificate.parse and DebugAuthenticationChallenge.parse consult.
+Renaming locals or re-arranging statements does not disturb it; a changed format, table or database entry changes
+GenDat.v, and the `*_from_source` Examples of Model/DatModel.v (reflexivity) stop compiling.
+Fail-closed: a missing attribute / unparsable format raises Unextractable (reported as a broken `translate:` obligation).
 """
-import ast
 import os
 import re
 import sys
 
 sys.path.insert(0, os.path.dirname(os.path.abspath(__file__)))
+sys.path.insert(0, os.path.join(os.path.dirname(os.path.abspath(__file__)), "props"))
 import vlib
 
 
@@ -22,102 +25,12 @@ class Unextractable(Exception):
     pass
 
 
-# symbolic widths that may appear inside f"{...}s" of a format
-SYMBOLS = {
-    "key_size": 1, "signature_size": 2, "len(self.rot_meta)": 3, "self.rot_pub.coordinate_size * 2": 4,
-    "self.dck_pub.coordinate_size * 2": 5, "len(self.signature)": 6, "len(self.export_dck_pub())": 7,
-    "rot_meta.HASH_SIZE * 2": 8, "len(rot_pub.export())": 9, "rot_pub.signature_size": 10, "hash_length": 11,
-}
-# things that are packed / unpacked
-FIELDS = {
-    "self.version.major": 1, "self.version.minor": 2, "self.socc": 3, "self.uuid": 4, "self.rot_meta.export()": 5,
-    "self.export_dck_pub()": 6, "self.cc_socu": 7, "self.cc_vu": 8, "self.cc_beacon": 9, "self.export_rot_pub()": 10,
-    "self.signature": 11,
-    # parse targets
-    "_": 0, "version_major": 1, "version_minor": 2, "socc": 3, "uuid": 4, "rot_meta": 5, "dck_pub": 6, "cc_socu": 7,
-    "cc_vu": 8, "cc_beacon": 9, "beacon": 9, "rot_pub": 10, "signature": 11,
-    # response / challenge pieces
-    "self.debug_credential.export()": 20, "self.auth_beacon": 21, "self.dac.uuid": 22, "self.dac.challenge": 23,
-    "self._get_common_data()": 24, "self._get_signature()": 25,
-    "rotid_rkh_revocation": 30, "rotid_rkth_hash": 31, "cc_soc_pinned": 32, "cc_soc_default": 33, "challenge": 34,
-    "self.rotid_rkh_revocation": 30, "self.rotid_rkth_hash": 31, "self.cc_soc_pinned": 32, "self.cc_soc_default": 33,
-    "self.challenge": 34,
-}
-
-
-def _cls(tree, name):
-    for n in tree.body:
-        if isinstance(n, ast.ClassDef) and n.name == name:
-            return n
-    raise Unextractable(f"class {name} not found")
-
-
-def _fn(cls, name):
-    for n in cls.body:
-        if isinstance(n, ast.FunctionDef) and n.name == name:
-            return n
-    raise Unextractable(f"{cls.name}.{name} not found")
-
-
-def _has_fn(cls, name):
-    return any(isinstance(n, ast.FunctionDef) and n.name == name for n in cls.body)
-
-
-def _const(node, what):
-    try:
-        return ast.literal_eval(node)
-    except Exception as ex:  # noqa
-        raise Unextractable(f"{what}: not a literal ({ast.unparse(node)})") from ex
-
-
-def fmt_pieces(node):
-    """Flatten a string expression built with + from literals and f-strings into a list of str / ('sym', text)."""
-    if isinstance(node, ast.Constant) and isinstance(node.value, str):
-        return [node.value]
-    if isinstance(node, ast.BinOp) and isinstance(node.op, ast.Add):
-        return fmt_pieces(node.left) + fmt_pieces(node.right)
-    if isinstance(node, ast.JoinedStr):
-        out = []
-        for v in node.values:
-            if isinstance(v, ast.Constant):
-                out.append(v.value)
-            elif isinstance(v, ast.FormattedValue) and v.format_spec is None and v.conversion == -1:
-                out.append(("sym", ast.unparse(v.value)))
-            else:
-                raise Unextractable("format: unsupported f-string part " + ast.unparse(node))
-        return out
-    raise Unextractable("format: unsupported expression " + ast.unparse(node))
-
-
-def norm_format(pieces, what):
-    """'<2HL16s' + ('sym','key_size') + 's' ... -> [(kind, arg)]  kind 0 u16, 1 u32, 2 bytes(const), 3 bytes(symbol)."""
-    toks = []
-    for p in pieces:
-        if isinstance(p, tuple):
-            toks.append(p)
-        else:
-            toks += list(p)
-    if not toks or toks[0] != "<":
-        raise Unextractable(f"{what}: format does not start with '<'")
-    items, i = [], 1
-    while i < len(toks):
-        t = toks[i]
-        if isinstance(t, tuple):
-            if t[1] not in SYMBOLS:
-                raise Unextractable(f"{what}: unknown symbolic width {t[1]!r}")
-            if i + 1 >= len(toks) or toks[i + 1] != "s":
-                raise Unextractable(f"{what}: symbolic count not followed by 's'")
-            items.append((3, SYMBOLS[t[1]]))
-            i += 2
-            continue
-        num = ""
-        while i < len(toks) and isinstance(toks[i], str) and toks[i].isdigit():
-            num += toks[i]
-            i += 1
-        if i >= len(toks) or isinstance(toks[i], tuple):
-            raise Unextractable(f"{what}: dangling count")
-        c = toks[i]
-        i += 1
+def norm_format(fmt, what):
+    """'<2HL16s128s260sLLL260s' -> [(kind, arg)]: (0,0) u16, (1,0) u32, (2,n) n bytes"""
+    if not isinstance(fmt, str) or not fmt.startswith("<"):
+        raise Unextractable(f"{what}: format {fmt!r} is not little-endian standard size")
+    items = []
+    for num, c in re.findall(r"(\d*)([A-Za-z?])", fmt[1:]):
         cnt = int(num) if num else 1
         if c == "s":
             items.append((2, cnt))
@@ -126,104 +39,10 @@ def norm_format(pieces, what):
         elif c in "LI":
             items += [(1, 0)] * cnt
         else:
-            raise Unextractable(f"{what}: unsupported format character {c!r}")
+            raise Unextractable(f"{what}: unsupported format character {c!r} in {fmt!r}")
+    if "".join(f"{n}{c}" for n, c in re.findall(r"(\d*)([A-Za-z?])", fmt[1:])) != fmt[1:]:
+        raise Unextractable(f"{what}: cannot tokenise {fmt!r}")
     return items
-
-
-def data_format(fn, what):
-    """get_data_format-like function: `data_format = <expr>`, optional `if include_signature: ... data_format += <expr>`,
-    `return data_format`.  Returns (items_without_signature, signature_items)."""
-    base, sig = None, []
-    for st in fn.body:
-        if isinstance(st, ast.Assign) and len(st.targets) == 1 and isinstance(st.targets[0], ast.Name) \
-                and st.targets[0].id == "data_format":
-            base = fmt_pieces(st.value)
-        elif isinstance(st, ast.If) and ast.unparse(st.test) == "include_signature":
-            for s2 in st.body:
-                if isinstance(s2, ast.AugAssign) and isinstance(s2.op, ast.Add) and ast.unparse(s2.target) == "data_format":
-                    sig += fmt_pieces(s2.value)
-    if base is None:
-        raise Unextractable(f"{what}: no data_format assignment")
-    full = norm_format(base + sig, what)
-    nosig = norm_format(base, what)
-    if full[:len(nosig)] != nosig:
-        raise Unextractable(f"{what}: signature is not appended at the end")
-    return nosig, full[len(nosig):]
-
-
-def dict_in(fn, var, what):
-    """`var = {..}[...]` inside fn -> the literal dict"""
-    for n in ast.walk(fn):
-        if isinstance(n, ast.Assign) and len(n.targets) == 1 and ast.unparse(n.targets[0]) == var \
-                and isinstance(n.value, ast.Subscript) and isinstance(n.value.value, ast.Dict):
-            return _const(n.value.value, what)
-    raise Unextractable(f"{what}: dict for {var} not found")
-
-
-def pack_args(fn, what):
-    """the single `pack(fmt, a, b, ...)` call of fn -> ([field ids], format-call text)"""
-    calls = [n for n in ast.walk(fn) if isinstance(n, ast.Call) and ast.unparse(n.func) == "pack"]
-    if len(calls) != 1:
-        raise Unextractable(f"{what}: expected exactly one pack() call")
-    args = [ast.unparse(a) for a in calls[0].args[1:]]
-    for a in args:
-        if a not in FIELDS:
-            raise Unextractable(f"{what}: unknown packed expression {a!r}")
-    return [FIELDS[a] for a in args], ast.unparse(calls[0].args[0])
-
-
-def unpack_targets(fn, what, nth=0):
-    """targets of the nth `(a, b, ...) = unpack_from(fmt, data ...)` in fn"""
-    hits = []
-    for n in ast.walk(fn):
-        if isinstance(n, ast.Assign) and isinstance(n.value, ast.Call) and ast.unparse(n.value.func) == "unpack_from" \
-                and isinstance(n.targets[0], ast.Tuple):
-            hits.append(n)
-    hits.sort(key=lambda n: n.lineno)
-    if nth >= len(hits):
-        raise Unextractable(f"{what}: unpack_from #{nth} not found")
-    names = [ast.unparse(e) for e in hits[nth].targets[0].elts]
-    for a in names:
-        if a not in FIELDS:
-            raise Unextractable(f"{what}: unknown unpack target {a!r}")
-    return [FIELDS[a] for a in names], hits[nth].value
-
-
-def local_format(fn, var, what):
-    for n in ast.walk(fn):
-        if isinstance(n, ast.Assign) and len(n.targets) == 1 and ast.unparse(n.targets[0]) == var:
-            return norm_format(fmt_pieces(n.value), what)
-    raise Unextractable(f"{what}: {var} not found")
-
-
-def concat_sequence(fn, what):
-    """`data = X` / `data += Y` ... `return data`  -> [ids]; a pack('<fmt', v) piece is (id, fmt items)"""
-    seq = []
-    for st in fn.body:
-        if isinstance(st, ast.Expr) and isinstance(st.value, ast.Constant):
-            continue
-        if isinstance(st, ast.Assign) and ast.unparse(st.targets[0]) == "data":
-            seq = [st.value]
-        elif isinstance(st, ast.AugAssign) and isinstance(st.op, ast.Add) and ast.unparse(st.target) == "data":
-            seq.append(st.value)
-        elif isinstance(st, ast.Return) and ast.unparse(st.value) == "data":
-            break
-        else:
-            raise Unextractable(f"{what}: unexpected statement {ast.unparse(st)[:60]!r}")
-    out = []
-    for e in seq:
-        if isinstance(e, ast.Call) and ast.unparse(e.func) == "pack":
-            f = norm_format(fmt_pieces(e.args[0]), what)
-            vs = [ast.unparse(a) for a in e.args[1:]]
-            if len(f) != 1 or len(vs) != 1 or vs[0] not in FIELDS:
-                raise Unextractable(f"{what}: unsupported pack piece {ast.unparse(e)!r}")
-            out.append((FIELDS[vs[0]], f[0]))
-        else:
-            t = ast.unparse(e)
-            if t not in FIELDS:
-                raise Unextractable(f"{what}: unknown piece {t!r}")
-            out.append((FIELDS[t], (9, 0)))          # kind 9: raw bytes as they are
-    return out
 
 
 def nl(xs):
@@ -234,234 +53,59 @@ def pl(xs):
     return "[" + "; ".join(f"({int(a)}, {int(b)})" for a, b in xs) + "]"
 
 
-def name_lit(s):
-    return nl(ord(c) for c in s)
-
-
-def extract_source():
-    base = os.path.join(vlib.REPO, "spsdk", "dat")
-    dc = ast.parse(open(os.path.join(base, "debug_credential.py")).read())
-    dar = ast.parse(open(os.path.join(base, "dar_packet.py")).read())
-    dac = ast.parse(open(os.path.join(base, "dac_packet.py")).read())
-    G = {}
-    # ---- ProtocolVersion
-    pv = _cls(dc, "ProtocolVersion")
-    vers = None
-    for n in pv.body:
-        if isinstance(n, ast.Assign) and ast.unparse(n.targets[0]) == "VERSIONS":
-            vers = _const(n.value, "VERSIONS")
-    if not vers or not all(re.fullmatch(r"\d+\.\d+", v) for v in vers):
-        raise Unextractable("ProtocolVersion.VERSIONS")
-    G["versions"] = [tuple(int(x) for x in v.split(".")) for v in vers]
-    fpk = _fn(pv, "from_public_key")
-    tabs = []
-    for n in ast.walk(fpk):
-        if isinstance(n, ast.If) and isinstance(n.test, ast.Call) and ast.unparse(n.test.func) == "isinstance":
-            kind = ast.unparse(n.test.args[1])
-            d = dict_in(n, "minor", "from_public_key")
-            major = [_const(k.value, "major") for c in ast.walk(n) if isinstance(c, ast.Call) for k in c.keywords if k.arg == "major"]
-            if len(major) != 1:
-                raise Unextractable("from_public_key: major")
-            tabs.append((kind, major[0], d))
-    kinds = {k: (m, d) for k, m, d in tabs}
-    if set(kinds) != {"PublicKeyRsa", "PublicKeyEcc"}:
-        raise Unextractable("from_public_key: key classes")
-    G["ver_rsa"] = kinds["PublicKeyRsa"]
-    G["ver_ecc"] = kinds["PublicKeyEcc"]
-    is_rsa = ast.unparse(_fn(pv, "is_rsa").body[-1].value)
-    m = re.fullmatch(r"self\.major == (\d+)", is_rsa)
-    if not m:
-        raise Unextractable("ProtocolVersion.is_rsa")
-    G["rsa_major"] = int(m.group(1))
-    # ---- RSA credential
-    rsa = _cls(dc, "DebugCredentialCertificateRsa")
-    gdf = _fn(rsa, "get_data_format")
-    G["rsa_fmt"], G["rsa_sig_fmt"] = data_format(gdf, "Rsa.get_data_format")
-    G["rsa_key_size"] = dict_in(gdf, "key_size", "Rsa key_size")
-    G["rsa_sig_size"] = dict_in(gdf, "signature_size", "Rsa signature_size")
-    G["rsa_export"], f1 = pack_args(_fn(rsa, "export"), "Rsa.export")
-    G["rsa_tbs"], f2 = pack_args(_fn(rsa, "_get_data_to_sign"), "Rsa._get_data_to_sign")
-    if f1 != "self.get_data_format(self.version)" or f2 != "self.get_data_format(self.version, include_signature=False)":
-        raise Unextractable("Rsa.export/_get_data_to_sign: format argument")
-    G["rsa_parse"], call = unpack_targets(_fn(rsa, "parse"), "Rsa.parse")
-    if ast.unparse(call.args[0]) != "cls.get_data_format(version)" or len(call.args) != 2:
-        raise Unextractable("Rsa.parse: unpack_from arguments")
-    exp_len = {}
-    for nm in ("export_rot_pub", "export_dck_pub"):
-        r = _fn(rsa, nm).body[-1]
-        mm = re.fullmatch(r"self\.(rot|dck)_pub\.export\(exp_length=(\d+)\)", ast.unparse(r.value))
-        if not mm:
-            raise Unextractable("Rsa." + nm)
-        exp_len[nm] = int(mm.group(2))
-    G["rsa_exp_len"] = (exp_len["export_rot_pub"], exp_len["export_dck_pub"])
-    # ---- ECC credential
-    ecc = _cls(dc, "DebugCredentialCertificateEcc")
-    cs = None
-    for n in ecc.body:
-        if isinstance(n, ast.Assign) and ast.unparse(n.targets[0]) == "COORDINATE_SIZE":
-            cs = _const(n.value, "COORDINATE_SIZE")
-    if not cs:
-        raise Unextractable("Ecc.COORDINATE_SIZE")
-    G["ecc_coord"] = cs
-    G["ecc_fmt"], G["ecc_sig_fmt"] = data_format(_fn(ecc, "get_data_format"), "Ecc.get_data_format")
-    G["ecc_export"], f1 = pack_args(_fn(ecc, "export"), "Ecc.export")
-    G["ecc_tbs"], f2 = pack_args(_fn(ecc, "_get_data_to_sign"), "Ecc._get_data_to_sign")
-    if f1 != "self.get_data_format()" or f2 != "self.get_data_format(include_signature=False)":
-        raise Unextractable("Ecc.export/_get_data_to_sign: format argument")
-    ep = _fn(ecc, "parse")
-    G["ecc_head_fmt"] = local_format(ep, "format_head", "Ecc.parse head")
-    G["ecc_tail_fmt"] = local_format(ep, "format_tail", "Ecc.parse tail")
-    G["ecc_parse_head"], c1 = unpack_targets(ep, "Ecc.parse", 0)
-    G["ecc_parse_tail"], c2 = unpack_targets(ep, "Ecc.parse", 1)
-    if [ast.unparse(a) for a in c1.args] != ["format_head", "data"] or \
-            [ast.unparse(a) for a in c2.args] != ["format_tail", "data", "calcsize(format_head) + len(rot_meta)"]:
-        raise Unextractable("Ecc.parse: unpack_from arguments")
-    for nm, want in (("export_rot_pub", "self.rot_pub.export()"), ("export_dck_pub", "self.dck_pub.export()")):
-        if ast.unparse(_fn(ecc, nm).body[-1].value) != want:
-            raise Unextractable("Ecc." + nm)
-    # ---- EdgeLock enclave (container version 1) credential
-    ele = _cls(dc, "DebugCredentialEdgeLockEnclave")
-    if [ast.unparse(b) for b in ele.bases] != ["DebugCredentialCertificateEcc"]:
-        raise Unextractable("DebugCredentialEdgeLockEnclave bases")
-    G["ele_fmt"], G["ele_sig_fmt"] = data_format(_fn(ele, "get_data_format"), "Ele.get_data_format")
-    G["ele_export"], f1 = pack_args(_fn(ele, "export"), "Ele.export")
-    G["ele_tbs"], f2 = pack_args(_fn(ele, "_get_data_to_sign"), "Ele._get_data_to_sign")
-    if f1 != "self.get_data_format()" or f2 != "self.get_data_format(include_signature=False)":
-        raise Unextractable("Ele.export/_get_data_to_sign: format argument")
-    lp = _fn(ele, "parse")
-    G["ele_head_fmt"] = local_format(lp, "format_head", "Ele.parse head")
-    G["ele_tail_fmt"] = local_format(lp, "format_tail", "Ele.parse tail")
-    G["ele_parse_head"], c1 = unpack_targets(lp, "Ele.parse", 0)
-    G["ele_parse_tail"], c2 = unpack_targets(lp, "Ele.parse", 1)
-    if [ast.unparse(a) for a in c2.args] != ["format_tail", "data", "calcsize(format_head) + len(rot_meta)"]:
-        raise Unextractable("Ele.parse: unpack_from arguments")
-    if _has_fn(ele, "export_dck_pub") or _has_fn(ele, "export_rot_pub"):
-        raise Unextractable("Ele overrides a key export")
-    # ---- RotMeta
-    rm = _cls(dc, "RotMetaRSA")
-    src = ast.unparse(rm)
-    need = ["len(data) < 128", "range(0, 4)", "data[index * 32:(index + 1) * 32]", "bytearray(128)",
-            "rot_meta[index * 32:(index + 1) * 32] = rot_item", "len(rot_pub_keys) > 4", "rot.export(exp_length=3)",
-            "get_hash(data=self.export())", "get_hash(data)"]
-    for s in need:
-        if s not in src:
-            raise Unextractable(f"RotMetaRSA: expected fragment {s!r} not found")
-    G["rsa_meta"] = (128, 4, 32, 3)
-    fl = ast.unparse(_cls(dc, "RotMetaFlags"))
-    need = ["self.cnt_root_cert > 4", "self.used_root_cert + 1 > self.cnt_root_cert", "len(data) != 4",
-            "not flags & 1 << 31", "flags >> 8 & 15", "flags >> 4 & 15", "flags |= 1 << 31",
-            "flags |= self.used_root_cert << 8", "flags |= self.cnt_root_cert << 4", "pack('<L', flags)"]
-    for s in need:
-        if s not in fl:
-            raise Unextractable(f"RotMetaFlags: expected fragment {s!r} not found")
-    G["flags"] = (31, 8, 4, 15, 4)
-    re_ = _cls(dc, "RotMetaEcc")
-    hs = None
-    for n in re_.body:
-        if isinstance(n, ast.Assign) and ast.unparse(n.targets[0]) == "HASH_SIZES":
-            hs = _const(n.value, "HASH_SIZES")
-    if not hs:
-        raise Unextractable("RotMetaEcc.HASH_SIZES")
-    G["hash_sizes"] = hs
-    src = ast.unparse(re_)
-    need = ["RotMetaFlags.parse(data[:4])", "crt_table = data[4:]", "flags.cnt_root_cert > 1",
-            "crt_table[rot_item_idx * cls.HASH_SIZE:(rot_item_idx + 1) * cls.HASH_SIZE]",
-            "len(self.rot_items) > 1", "self.flags.export() + self.export_crtk_table()", "len(rot_pub_keys) > 1",
-            "(len(self) - len(self.flags)) // self.flags.cnt_root_cert"]
-    for s in need:
-        if s not in src:
-            raise Unextractable(f"RotMetaEcc: expected fragment {s!r} not found")
-    src = ast.unparse(_cls(dc, "RotMetaEdgeLockEnclave"))
-    need = ["RotMetaFlags.parse(data[:4])", "SRKTable.parse(data[4:])", "srk_table.verify().validate()",
-            "len(rot_pub_keys) != 4", "self.flags.export() + self.srk_table.export()"]
-    for s in need:
-        if s not in src:
-            raise Unextractable(f"RotMetaEdgeLockEnclave: expected fragment {s!r} not found")
-    # ---- response
-    base_dar = _cls(dar, "DebugAuthenticateResponse")
-    G["dar_common"] = concat_sequence(_fn(base_dar, "_get_common_data"), "DAR._get_common_data")
-    G["dar_tbs"] = concat_sequence(_fn(base_dar, "_get_data_for_signature"), "DAR._get_data_for_signature")
-    G["dar_export"] = concat_sequence(_fn(base_dar, "export"), "DAR.export")
-    ecc_dar = _cls(dar, "DebugAuthenticateResponseECC")
-    G["dar_common_ecc"] = concat_sequence(_fn(ecc_dar, "_get_common_data"), "DAR ECC._get_common_data")
-    for c in (ecc_dar,):
-        if _has_fn(c, "export") or _has_fn(c, "_get_data_for_signature") or _has_fn(c, "_get_signature"):
-            raise Unextractable("DebugAuthenticateResponseECC overrides export/_get_data_for_signature")
-    sigsrc = ast.unparse(_fn(base_dar, "_get_signature"))
-    if "self.sign_provider.sign(self._get_data_for_signature())" not in sigsrc:
-        raise Unextractable("DAR._get_signature does not sign _get_data_for_signature()")
-    vm = None
-    for n in dar.body:
-        if isinstance(n, ast.Assign) and ast.unparse(n.targets[0]) == "_version_mapping" and isinstance(n.value, ast.Dict):
-            vm = {_const(k, "vm"): ast.unparse(v) for k, v in zip(n.value.keys, n.value.values)}
-    if not vm:
-        raise Unextractable("_version_mapping")
-    classes = {c.name: c for c in dar.body if isinstance(c, ast.ClassDef)}
-
-    def uses_uuid(name):
-        c = classes[name]
-        while True:
-            if _has_fn(c, "_get_common_data") or _has_fn(c, "export") or _has_fn(c, "_get_data_for_signature"):
-                if c.name == "DebugAuthenticateResponseECC":
-                    return 1
-                if c.name == "DebugAuthenticateResponse":
-                    return 0
-                raise Unextractable(f"{c.name} overrides response assembly")
-            b = [ast.unparse(x) for x in c.bases]
-            if len(b) != 1 or b[0] not in classes:
-                raise Unextractable(f"{c.name}: bases")
-            c = classes[b[0]]
-    G["dar_versions"] = sorted((tuple(int(x) for x in k.split(".")), uses_uuid(v)) for k, v in vm.items())
-    # ---- challenge
-    ch = _cls(dac, "DebugAuthenticationChallenge")
-    cp = _fn(ch, "parse")
-    G["dac_head_fmt"] = local_format(cp, "format_head", "DAC.parse head")
-    G["dac_tail_fmt"] = local_format(cp, "format_tail", "DAC.parse tail")
-    G["dac_parse_head"], _c = unpack_targets(cp, "DAC.parse", 0)
-    G["dac_parse_tail"], _c = unpack_targets(cp, "DAC.parse", 1)
-    src = ast.unparse(_fn(ch, "get_rot_hash_length"))
-    want = ("if based_on_ele:\n        return 32" in src and "if major_ver == 2 and (not dat_is_using_sha256_always):" in src
-            and "if minor_ver == 1:\n            return 48" in src and "if minor_ver == 2:\n            return 64" in src
-            and src.rstrip().endswith("return 32"))
-    if not want:
-        raise Unextractable("DAC.get_rot_hash_length: unexpected shape")
-    G["dac_hash_len"] = (32, 48, 64)
-    return G
-
-
 def regen():
-    G = extract_source()
-    db = vlib.run_impl("c15_impl.py", {"mode": "extract"}, timeout=900)
+    import c15_keys
+    keydir = os.path.join(vlib.WORK, "C15", "keys")
+    c15_keys.load_pool(keydir)
+    db = vlib.run_impl("c15_impl.py", {"mode": "extract", "keydir": keydir}, timeout=900)
+    S = db["source"]
     L = []
     A = L.append
-    A("(* GENERATED on every run by tools/regen_c15.py from spsdk/dat/{debug_credential,dar_packet,dac_packet}.py and the "
-      "device database -- do not edit.\n   format items: (0,0) u16 | (1,0) u32 | (2,n) n bytes | (3,s) bytes of symbolic width s "
-      "| (9,0) raw bytes *)")
+    A("(* GENERATED on every run by tools/regen_c15.py from what spsdk/dat/{debug_credential,dar_packet,dac_packet}.py compute "
+      "and from the device database -- do not edit.\n   format items: (0,0) u16 | (1,0) u32 | (2,n) n bytes *)")
     A("From Coq Require Import ZArith NArith List.\nImport ListNotations.\nLocal Open Scope N_scope.\n")
-    A(f"Definition g_versions : list (N * N) := {pl(G['versions'])}.")
-    A(f"Definition g_rsa_major : N := {G['rsa_major']}.")
-    A(f"Definition g_ver_rsa_major : N := {G['ver_rsa'][0]}.")
-    A(f"Definition g_ver_rsa_minor : list (N * N) := {pl(sorted(G['ver_rsa'][1].items()))}.")
-    A(f"Definition g_ver_ecc_major : N := {G['ver_ecc'][0]}.")
-    A(f"Definition g_ver_ecc_minor : list (N * N) := {pl(sorted(G['ver_ecc'][1].items()))}.")
-    for k in ("rsa_fmt", "rsa_sig_fmt", "ecc_fmt", "ecc_sig_fmt", "ecc_head_fmt", "ecc_tail_fmt", "ele_fmt", "ele_sig_fmt",
-              "ele_head_fmt", "ele_tail_fmt", "dac_head_fmt", "dac_tail_fmt"):
-        A(f"Definition g_{k} : list (N * N) := {pl(G[k])}.")
-    for k in ("rsa_export", "rsa_tbs", "rsa_parse", "ecc_export", "ecc_tbs", "ecc_parse_head", "ecc_parse_tail",
-              "ele_export", "ele_tbs", "ele_parse_head", "ele_parse_tail", "dac_parse_head", "dac_parse_tail"):
-        A(f"Definition g_{k}_fields : list N := {nl(G[k])}.")
-    A(f"Definition g_rsa_key_size : list (N * N) := {pl(sorted(G['rsa_key_size'].items()))}.")
-    A(f"Definition g_rsa_sig_size : list (N * N) := {pl(sorted(G['rsa_sig_size'].items()))}.")
-    A(f"Definition g_rsa_exp_len : N * N := ({G['rsa_exp_len'][0]}, {G['rsa_exp_len'][1]}).")
-    A(f"Definition g_ecc_coord : list (N * N) := {pl(sorted(G['ecc_coord'].items()))}.")
-    A(f"Definition g_hash_sizes : list (N * N) := {pl(sorted(G['hash_sizes'].items()))}.")
-    A(f"Definition g_rsa_meta : N * N * N * N := ({', '.join(str(x) for x in G['rsa_meta'])}).")
-    A(f"Definition g_flags : N * N * N * N * N := ({', '.join(str(x) for x in G['flags'])}).")
-    for k in ("dar_common", "dar_tbs", "dar_export", "dar_common_ecc"):
-        A(f"Definition g_{k} : list (N * (N * N)) := [" + "; ".join(f"({i}, ({a}, {b}))" for i, (a, b) in G[k]) + "].")
-    A("Definition g_dar_versions : list (N * N * N) := [" + "; ".join(f"({a}, {b}, {u})" for (a, b), u in G["dar_versions"]) + "].")
-    A(f"Definition g_dac_hash_len : N * N * N := ({', '.join(str(x) for x in G['dac_hash_len'])}).")
-    # database: (socc, (ele, cnt_version, sha256_always, swapped))
+    vers = [tuple(int(x) for x in v.split(".")) for v in S["versions"]]
+    if not vers or any(len(v) != 2 for v in vers):
+        raise Unextractable("ProtocolVersion.VERSIONS")
+    A(f"Definition g_versions : list (N * N) := {pl(vers)}.")
+    rsa_majors = sorted({v[0] for v, r in zip(vers, S["is_rsa"]) if r})
+    if len(rsa_majors) != 1:
+        raise Unextractable("ProtocolVersion.is_rsa: not exactly one RSA major version")
+    A(f"Definition g_rsa_major : N := {rsa_majors[0]}.")
+    for kind in ("rsa", "ecc"):
+        tab = {int(k): tuple(v) for k, v in S["version_of_" + kind].items()}
+        majors = sorted({v[0] for v in tab.values()})
+        if len(majors) != 1:
+            raise Unextractable(f"from_public_key({kind}): majors {majors}")
+        A(f"Definition g_ver_{kind}_major : N := {majors[0]}.")
+        A(f"Definition g_ver_{kind}_minor : list (N * N) := {pl(sorted((k, v[1]) for k, v in tab.items()))}.")
+    # RSA credential: one format per protocol version, with and without signature
+    ks, sg = {}, {}
+    for v, (f_sig, f_nosig) in sorted(S["rsa_formats"].items()):
+        mi = int(v.split(".")[1])
+        a, b = norm_format(f_sig, "Rsa.get_data_format"), norm_format(f_nosig, "Rsa.get_data_format")
+        if a[:len(b)] != b or len(a) != len(b) + 1 or a[-1][0] != 2:
+            raise Unextractable("Rsa.get_data_format: the signature is not one trailing bytes field")
+        A(f"Definition g_rsa_fmt_{mi} : list (N * N) := {pl(a)}.")
+        if len(b) != 10 or b[5][0] != 2 or b[9] != b[5]:
+            raise Unextractable("Rsa.get_data_format: unexpected number of fields")
+        ks[mi], sg[mi] = b[5][1], a[-1][1]
+    A(f"Definition g_rsa_key_size : list (N * N) := {pl(sorted(ks.items()))}.")
+    A(f"Definition g_rsa_sig_size : list (N * N) := {pl(sorted(sg.items()))}.")
+    A(f"Definition g_rsa_exp_len : N * N := ({S['rsa_exp_len'][0]}, {S['rsa_exp_len'][1]}).")
+    # ECC / EdgeLock credentials: formats of instances made from the key pool: (curve bits | rsa bits, n keys, format)
+    for name in ("ecc", "ele"):
+        rows = []
+        for r in S[name + "_formats"]:
+            rows.append((r["bits"], r["n"], norm_format(r["with_sig"], name), norm_format(r["without_sig"], name)))
+            if rows[-1][2][:len(rows[-1][3])] != rows[-1][3] or len(rows[-1][2]) != len(rows[-1][3]) + 1:
+                raise Unextractable(f"{name}.get_data_format: the signature is not one trailing bytes field")
+        A(f"Definition g_{name}_fmt_inst : list (N * N * list (N * N)) := [" +
+          "; ".join(f"({b}, {n}, {pl(f)})" for b, n, f, _ in sorted(rows)) + "].")
+    A(f"Definition g_ecc_coord : list (N * N) := {pl(sorted((int(k), v) for k, v in S['coordinate_size'].items()))}.")
+    A(f"Definition g_hash_sizes : list (N * N) := {pl(sorted((int(k), v) for k, v in S['hash_sizes'].items()))}.")
+    dv = sorted((tuple(int(x) for x in k.split(".")), int(u)) for k, u in S["dar_versions"].items())
+    A("Definition g_dar_versions : list (N * N * N) := [" + "; ".join(f"({a}, {b}, {u})" for (a, b), u in dv) + "].")
     soccs = sorted(db["soccs"], key=lambda r: r["socc"])
     A("(* per SOCC, the facts of the family ambassador (the family DebugCredentialCertificate.parse / DAC.parse consult): "
       "(socc, (based_on_ele, ele_cnt_version, dat_is_using_sha256_always, dac_version_is_swapped)) *)")
@@ -473,9 +117,9 @@ def regen():
         f"({r['socc']}, ({int(r['ele'])}, {r['cnt']}, {int(r['pss'])}))" for r in fams) + "].")
     text = "\n".join(L) + "\n"
     vlib.write_if_changed(os.path.join(vlib.COQ, "Gen", "GenDat.v"), text)
-    return {"source": G, "db": db}
+    return {"db": db}
 
 
 if __name__ == "__main__":
-    r = regen()
-    print(open(os.path.join(vlib.COQ, "Gen", "GenDat.v")).read())
+    regen()
+    print(open(os.path.join(vlib.COQ, "Gen", "GenDat.v")).read()[:6000])
